@@ -71,12 +71,16 @@ namespace AIToolbox::Factored::MDP {
                 if (adjacent != s1[0] && adjacent != s1[1])
                     goodDirections.push_back(d);
             }
-            std::uniform_int_distribution<size_t> d(0, goodDirections.size() - 1);
-            // Shift both tigers in the opposite direction to mimic the
-            // antelope moving.
-            auto dir = (goodDirections[d(rand_)] + 2) % 4;
-            s1[0] = grid_.getAdjacent(dir, grid_(s1[0]));
-            s1[1] = grid_.getAdjacent(dir, grid_(s1[1]));
+            // On a tiny torus the tigers can block every cell around the
+            // antelope: then it cannot move.
+            if (!goodDirections.empty()) {
+                std::uniform_int_distribution<size_t> d(0, goodDirections.size() - 1);
+                // Shift both tigers in the opposite direction to mimic the
+                // antelope moving.
+                auto dir = (goodDirections[d(rand_)] + 2) % 4;
+                s1[0] = grid_.getAdjacent(dir, grid_(s1[0]));
+                s1[1] = grid_.getAdjacent(dir, grid_(s1[1]));
+            }
         }
         return retval;
     }
